@@ -41,7 +41,7 @@ int __wrap_putchar(int c);
 int __wrap_putchar(int c) { if (!capturing) return fputc(c, stdout); return __wrap_printf("%c", c); }
 
 /* ---- records ---- */
-struct rec { int prio; uint32_t line, tags; long sec, nsec; char fn[24]; char msg[600]; };
+struct rec { int prio; uint32_t line, tags; long sec, nsec; char fn[72]; char msg[600]; };
 static struct rec LOGGED[64]; static int nlogged;
 static const char *prio_names[] = { "emerg", "alert", "crit", "error", "warning", "notice", "info", "debug", "trace" };
 static char dir[128], dumpf[160], dmgf[160];
@@ -82,6 +82,13 @@ static void bb_log(int kind)
 		snprintf(r->msg, sizeof r->msg, "r%d %s", n, big);
 		qb_log_from_external_source(r->fn, "bb.c", "r%d %s", (uint8_t)r->prio, r->line, r->tags, n, big);
 		break;
+	case 4:
+		/* just below the line limit, logged from a function with a long name: the record is as large as a record gets */
+		snprintf(r->fn, sizeof r->fn, "a_function_with_a_name_that_is_sixty_characters_long_0123456");
+		memset(big, 'N', 480); big[480] = 0;
+		snprintf(r->msg, sizeof r->msg, "r%d %s", n, big);
+		qb_log_from_external_source(r->fn, "bb.c", "r%d %s", (uint8_t)r->prio, r->line, r->tags, n, big);
+		break;
 	default:
 		/* over-long: the blackbox stores a replacement text */
 		memset(big, 'L', 599); big[599] = 0;
@@ -108,13 +115,13 @@ static void check_round_trip(const char *why)
 	char *line = cap, *nl;
 	int nprinted = 0, first, i;
 	if (vp_tracing) vp_logf("--- captured output ---\n%s---", cap);
-	struct { char prio[16], time[40], fn[40]; unsigned line, tags; char msg[700]; } P[64];
+	struct { char prio[16], time[40], fn[80]; unsigned line, tags; char msg[700]; } P[64];
 	while ((nl = strchr(line, '\n'))) {
 		*nl = 0;
 		if (!strncmp(line, "Ringbuffer", 10) || line[0] == ' ' || !*line) { line = nl + 1; continue; }
 		if (nprinted < 64) {
 			char mon[8]; int day, hh, mm, ss, ms, off = 0;
-			if (sscanf(line, "%15s %7s %d %d:%d:%d.%d %39[^(](%u):%u: %n", P[nprinted].prio, mon, &day, &hh, &mm, &ss, &ms, P[nprinted].fn, &P[nprinted].line, &P[nprinted].tags, &off) < 10 || !off)
+			if (sscanf(line, "%15s %7s %d %d:%d:%d.%d %79[^(](%u):%u: %n", P[nprinted].prio, mon, &day, &hh, &mm, &ss, &ms, P[nprinted].fn, &P[nprinted].line, &P[nprinted].tags, &off) < 10 || !off)
 				vp_fail("%s: unparsable output line '%.80s'", why, line);
 			snprintf(P[nprinted].time, sizeof P[nprinted].time, "%s %02d %02d:%02d:%02d.%03d", mon, day, hh, mm, ss, ms);
 			snprintf(P[nprinted].msg, sizeof P[nprinted].msg, "%s", line + off);
@@ -298,8 +305,8 @@ static void run_roundtrip(void)
 		if (n) vp_log("%d records of 400 characters logged first", n);
 	}
 	for (step = 0; step < depth; step++) {
-		int kind = vp_choose(4, "record kind");
-		bb_log(kind);
+		int kind = vp_choose(5, "record kind");
+		bb_log(kind == 4 ? 3 : kind == 3 ? 4 : kind);
 		vp_log("log record #%d kind %d: '%.40s'", nlogged - 1, kind, LOGGED[nlogged - 1].msg);
 		unlink(dumpf);
 		if (qb_log_blackbox_write_to_file(dumpf) < 0) vp_fail("qb_log_blackbox_write_to_file failed after record %d", nlogged);
@@ -326,9 +333,13 @@ static void init(void)
 int main(int argc, char **argv)
 {
 	static struct vp_harness h = {
+#ifdef VP_C11_TWIN
+		.property = "C11", .name = "c11_bb_newest", .level = "model_checking",
+#else
 		.property = "C15", .name = "c15_bb_dump", .level = "exploration",
+#endif
 		.run = run, .init = init, .setup = setup, .batch = 100, .private_shm = 1, .timeout_s = 30,
-		.rule = "round_trip=1: every sequence of <= records log calls (short, mixed conversions, 400-character, over-long) into blackboxes of "
+		.rule = "round_trip=1: every sequence of <= records log calls (short, mixed conversions, 400-character, 480-character from a function with a 60-character name, over-long) into blackboxes of "
 			"1024/2048/4096 bytes; after EVERY record the blackbox is written to a file, printed with qb_log_blackbox_print_from_file and "
 			"the captured output parsed and compared field by field (priority, function, line, tags, timestamp, text) with the newest "
 			"records, which must form an unbroken run ending with the last one.  round_trip=0: three valid dumps (1, 3, 14 wrapped records) "
